@@ -152,3 +152,12 @@ def c17_trig_remainder_absolute_accuracy(site, w):
         return False
     la, lr = _unfl(la), _unfl(lr)
     return lr <= -(p - 5) and la <= -(2 * p - 6) and w.get("ulps", 99) <= 8
+
+
+def c08_python_max_min_returns_an_operand(site, w):
+    """NumPy target: maximum/minimum are emitted as Python max()/min(), which return one of their operands unchanged, so for operands of
+    different precision the run-time dtype is the selected operand's, not the promoted type the static inference (and numpy.maximum) gives"""
+    if site not in ("static-vs-runtime:maximum", "static-vs-runtime:minimum"):
+        return False
+    ots = w.get("operand_types", [])
+    return len(ots) == 2 and ots[0] != ots[1] and w.get("runtime") in ots and w.get("static") in ots
